@@ -17,6 +17,7 @@ V = os.path.dirname(os.path.dirname(os.path.abspath(__file__)))
 
 
 def sh(cmd, cwd=None):
+    os.environ.setdefault("CARGO_NET_OFFLINE", "true")
     p = subprocess.run(cmd, cwd=cwd, stdout=subprocess.PIPE, stderr=subprocess.STDOUT, text=True)
     return p.returncode, p.stdout
 
@@ -49,6 +50,12 @@ def main():
     if out.strip():
         print("refusing: /repo has local modifications:\n" + out)
         return 2
+    # the harness is edited by several hands: make sure it builds against the CLEAN tree first, so that a
+    # build failure with the patch applied is the patch's doing
+    rc, out = sh(["cargo", "build", "--offline"], cwd=os.path.join(V, "harness"))
+    if rc != 0:
+        print("harness does not build on the clean tree (someone is editing it) - retry later")
+        return 3
     rc, out = sh(["git", "-C", "/repo", "apply", os.path.join(d, "patch.diff")])
     if rc != 0:
         print("patch does not apply:", out)
